@@ -188,9 +188,9 @@ K("C07/calc-outcome", ["C07", "C14"], BD + "c07_calc_outcome_precedence", ["Boar
 K("C11/try-from/accepts", ["C11", "C02", "C19"], BD + "c11_try_from_accepts_exactly_valid", ["<Board as TryFrom<RawBoard>>::try_from"],
   "for all raw boards: try_from is Ok iff (mark on the right rank, <= 16 men a side, exactly one king each, no pawn on rank 1/8, side not to move not in check); on Err the reported condition (with its square / colour) really holds",
   assumes=ATT, timeout=3000, mem_gb=32, mem_est=12)
-K("C11/try-from/normalised", ["C11", "C02", "C05"], "board::verif_kani_c::c11_try_from_result_normalised_wf_hashed", ["<Board as TryFrom<RawBoard>>::try_from"],
-  "for all raw boards accepted: result == input except rights without king/rook at home and a mark without enemy pawn / with an occupied square behind it; derived sets well-formed at every square; stored hash == from-scratch hash",
-  assumes=ATT + ["C05/scratch/zobrist-hash"], timeout=3000, mem_gb=32, mem_est=12)
+K("C11/try-from/normalised", ["C11", "C02", "C05"], "board::verif_kani_c::c11_try_from_result_normalised_wf_hashed_v3", ["<Board as TryFrom<RawBoard>>::try_from"],
+  "for all raw boards accepted: result == input except rights without king/rook at home and a mark without enemy pawn / with an occupied square behind it; derived sets well-formed at every square; stored hash == RawBoard::zobrist_hash of the stored raw board (callee imported by contract: a pure function of cells, side, rights and mark, instantiated with the projection onto an arbitrary witness square)",
+  assumes=ATT + ["C05/scratch/zobrist-hash"], timeout=1800)
 K("C11/spec/idempotent", ["C11"], BD + "c11_normalise_idempotent_and_valid", [],
   "spec-level lemma: ref_normalise is idempotent and preserves ref_valid (so re-validating a validated board changes nothing)", timeout=1800)
 
@@ -477,7 +477,7 @@ for _i, _g in enumerate(("gen_all", "gen_capture", "gen_simple", "gen_simple_no_
 # counterexample of such an obligation cannot be replayed natively; it is reported with the
 # verifier's concrete values and `no-failing-input-found`
 for _o in OBS:
-    if any(x in _o["id"] for x in ("public-glue", "C07/legal-filter", "C09/from-move/simple", "C09/into-move/", "C07/calc-outcome", "C01/validate-glue")):
+    if any(x in _o["id"] for x in ("public-glue", "C07/legal-filter", "C09/from-move/simple", "C09/into-move/", "C07/calc-outcome", "C01/validate-glue", "C11/try-from/normalised")):
         _o["no_native_replay"] = True
 
 V("C05/lemma/fold", ["C05", "C14"], "hash.vspec", [],
